@@ -510,6 +510,18 @@ func stressMain(args []string) {
 		if res.Stall != nil {
 			stalls++
 			sig := obsSig(res.Stall)
+			if sig == "" && res.Log != "" {
+				// nobody waits for a lock, but the server panicked while serving one of the commands: the command
+				// that never completes is explained by real behaviour of the code, not by the driver
+				psig := "command-never-completes/server-panic"
+				sigs[psig]++
+				if sigs[psig] == 1 {
+					out.Mismatch(psig, fmt.Sprintf("stress driver (%d sessions, seed %d): %v never completed after the server panicked: %s", n, cfg.Seed, res.StallCmd, clip(res.Log, 1500)), cfg)
+				} else {
+					out.Mismatch(psig, "", nil)
+				}
+				continue
+			}
 			if sig == "" {
 				fatal(fmt.Errorf("stress stalled (> 6 s without progress) but no lock wait cycle was found: %v %+v", res.StallCmd, res.Stall.Procs))
 			}
